@@ -8,6 +8,8 @@ git apply "$patch"
 cd /verif
 for p in "$@"; do
   echo "== $p"
+  # the evidence committed under evidence/ describes runs on the unchanged tree: keep it aside while a seeded change is applied
+  cp "evidence/$p.json" "/tmp/seedtest.$$.$p.evidence" 2>/dev/null
   ./jv check "$p" --tier quick 2>&1 | grep -E "^(VIOLATION|KNOWN-FINDING)" | head -5 > /tmp/seedtest.$$.out
   cat /tmp/seedtest.$$.out
   # what each replay says (the replay files are overwritten by later runs)
@@ -15,5 +17,6 @@ for p in "$@"; do
     python3 -c "import json,sys; r=json.load(open(sys.argv[1])); print('  WHAT', (r.get('key') or ''), '|', str(r.get('what'))[:220].replace(chr(10),' '))" "$r" 2>/dev/null
   done
   rm -f /tmp/seedtest.$$.out
+  [ -f "/tmp/seedtest.$$.$p.evidence" ] && mv "/tmp/seedtest.$$.$p.evidence" "evidence/$p.json"
 done
 cd /repo && git checkout -- . 
